@@ -764,18 +764,18 @@ def work_items(tier, flt):
             items.append({"kind": "cube_moves", "env": CUBE, "n": n, "cost": 2 + n * n / 4})
         for n, s, t in (CUBE_ENV_MENU_QUICK if quick else CUBE_ENV_MENU_THOROUGH):
             items.append({"kind": "cube_env", "env": CUBE, "n": n, "s": s, "t": t,
-                          "cases": int((400 if quick else 4000) * scale), "max_len": 24 if quick else 40,
+                          "cases": int((400 if quick else 3000) * scale), "max_len": 24 if quick else 40,
                           "cost": 3 + n * (1 + s / 50)})
     if not want or SLIDE in want:
         items.append({"kind": "slide_bfs", "env": SLIDE, "n": 2, "max_depth": None, "batch": 16, "cost": 1})
         items.append({"kind": "slide_bfs", "env": SLIDE, "n": 3, "max_depth": None, "batch": 20000, "cost": 100})
         for n, m, t, rw in SLIDE_WALK_MENU:
             items.append({"kind": "slide_walk", "env": SLIDE, "n": n, "m": m, "t": t, "reward": rw,
-                          "cases": int((400 if quick else 5000) * scale), "max_len": 60 if quick else 100,
+                          "cases": int((400 if quick else 4000) * scale), "max_len": 60 if quick else 100,
                           "cost": 4})
         for n in (2, 3, 4, 5):
             items.append({"kind": "slide_gen", "env": SLIDE, "n": n, "ms": SLIDE_GEN_M,
-                          "cases": max(1, int((4 if quick else 40) * scale)), "batch": 512 if quick else 2048,
+                          "cases": max(1, int((4 if quick else 30) * scale)), "batch": 512 if quick else 2048,
                           "cost": 5})
     return items
 
